@@ -28,7 +28,7 @@ RULE = ('bool: combinator trees of depth <= 4 over <= 6 atoms, built by construc
 ASSUMPTIONS = [
     'atom truth is computed with the Python comparison itself; a comparison that raises must raise the same class from glom',
     'a failing T access inside a tree counts as "did not pass" for an enclosing Or/Not/Switch key and surfaces as PathAccessError at the root',
-    'validators are total predicates returning True/False; Not has no default',
+    'a validator that raises counts as a failed check (Check docstring); Not has no default',
 ]
 
 TARGETS = [['i', 0], ['i', 1], ['i', 2], ['i', 5], ['i', -1], ['s', 'a'], ['s', ''], ['none'],
@@ -50,6 +50,19 @@ class LogPred(object):
 
     def __repr__(self):
         return 'pred%s' % self.ident
+
+
+class AnonPred(object):
+    """a predicate object WITHOUT a __name__ (like functools.partial or operator.methodcaller objects)"""
+    def __init__(self, ident, result, log):
+        self.ident, self.result, self.log = ident, result, log
+
+    def __call__(self, t):
+        self.log.append(('pred', self.ident))
+        return self.result
+
+    def __repr__(self):
+        return 'anonpred%s' % self.ident
 
 
 class Probe(object):
@@ -90,7 +103,7 @@ def gen_atom(draw, counter):
         return ['lit', draw(st.sampled_from(TARGETS[:8]))]
     if k <= 10:
         counter[0] += 1
-        return ['pred', counter[0], draw(st.booleans())]
+        return ['pred', counter[0], draw(st.booleans()), draw(st.sampled_from(['named', 'named', 'anon']))]
     if k == 11:
         return ['val', ['i', draw(st.integers(7, 9))]]
     if k == 12:
@@ -124,9 +137,13 @@ def gen_tree(draw, d, counter, ops_mode):
     if kind in ('and', 'or') and draw(st.integers(0, 4)) == 0:
         dflt = draw(st.sampled_from([['lit', ['s', 'dflt']], ['T'], ['lit', ['none']], ['list-T']]))
         return [kind, kids, dflt]
-    if ops_mode and not ops_mode_ok(kids[0]):
+    if ops_mode and kind == 'and' and kids[1][0] in ('m', 'mt', 'mm', 'M') and draw(st.sampled_from(range(3))) == 0:
+        # <plain thing> & <M expression>: Python falls back to the M expression's reflected __rand__
+        counter[0] += 1
+        kids[0] = draw(st.sampled_from([['type', 'int'], ['type', 'str'], ['val', ['i', 7]], ['lit', ['i', 1]], ['pred', counter[0], True], ['pred', counter[0], False]]))
+    elif ops_mode and not ops_mode_ok(kids[0]):
         kids[0] = ['M']
-    if ops_mode and draw(st.integers(0, 3)) == 0:
+    if ops_mode and ops_mode_ok(kids[0]) and draw(st.integers(0, 3)) == 0:
         # right operand may be a plain type / literal / Val: And(M-thing, int)
         kids[-1] = draw(st.sampled_from([['type', 'int'], ['type', 'str'], ['val', ['i', 7]], ['lit', ['i', 1]]]))
     return [kind, kids]
@@ -192,7 +209,7 @@ def build_tree(t, log, mode):
     if tag == 'lit':
         return tg.build(t[1]).obj
     if tag == 'pred':
-        return LogPred(t[1], t[2], log)
+        return (AnonPred if len(t) > 3 and t[3] == 'anon' else LogPred)(t[1], t[2], log)
     if tag == 'val':
         return Val(tg.build(t[1]).obj)
     if tag == 't':
@@ -560,7 +577,10 @@ class Validator(object):
 
 
 VALIDATORS = {'is_pos': lambda t: isinstance(t, (int, float)) and t > 0, 'is_small': lambda t: isinstance(t, int) and t < 3,
-              'always': lambda t: True, 'never': lambda t: False}
+              'always': lambda t: True, 'never': lambda t: False,
+              # a partial validator: raises TypeError on targets that cannot be compared with 0 ("If one or more return
+              # False or raise an exception, the Check will fail")
+              'raw_pos': lambda t: t > 0}
 CHECK_TARGETS = [['i', 0], ['i', 1], ['i', 5], ['s', 'a'], ['s', ''], ['b', True], ['f', 1.0], ['none'],
                  ['dict', [['k', ['i', 1]]]], ['dict', [['k', ['s', 'a']]]], ['list', [['i', 1]]]]
 
@@ -574,6 +594,7 @@ def gen_check(draw):
         'one_of': opt(st.lists(st.sampled_from([['i', 1], ['i', 5], ['s', 'a'], ['none']]), min_size=1, max_size=3, unique_by=repr)),
         'validate': opt(st.lists(st.sampled_from(sorted(VALIDATORS)), min_size=1, max_size=2, unique=True)),
         'validate_single': draw(st.booleans()),
+        'instance_of_as': draw(st.sampled_from(['tuple', 'tuple', 'list'])),      # "a type or sequence of types"
         'default': draw(st.sampled_from([None, None, ['lit', ['s', 'dflt']], ['T'], ['list-T'], ['lit', ['none']]])),
         'sub': draw(st.sampled_from([None, None, 'k'])),
         'target': draw(st.sampled_from(CHECK_TARGETS)),
@@ -592,7 +613,7 @@ def check_checkkw(recipe, ctx):
         kw['type'] = ts[0] if len(ts) == 1 else ts
     if recipe['instance_of']:
         ts = [TYPES[n] for n in recipe['instance_of']]
-        kw['instance_of'] = ts[0] if len(ts) == 1 else tuple(ts)
+        kw['instance_of'] = ts[0] if len(ts) == 1 else (list(ts) if recipe.get('instance_of_as') == 'list' else tuple(ts))
     if recipe['equal_to'] is not None:
         kw['equal_to'] = tg.build(recipe['equal_to']).obj
     if recipe['one_of'] is not None:
@@ -627,7 +648,12 @@ def check_checkkw(recipe, ctx):
             failed.append('value')
         if recipe['validate']:
             for n in recipe['validate']:
-                if not VALIDATORS[n](sub):
+                try:
+                    ok_ = VALIDATORS[n](sub)
+                except Exception:
+                    ok_ = False
+                    ctx.label('validator-raises')
+                if not ok_:
                     failed.append('validate:' + n)
         elif not kw or set(kw) <= {'default'}:
             if not sub:
